@@ -39,7 +39,16 @@ def handleGraph (op : String) (j : Json) : Option Json :=
     let shellAll : Option (List Task) := shellRuns.foldl (fun acc o => match acc, o with
       | some a, some b => some (a ++ b)
       | _, _ => none) (some [])
+    -- the one-line summary over the tasks `jug status` counts (the task list of the jugfile)
+    let counted : List Task := match j.getObjVal? "counted" with
+      | .ok (.arr a) => a.toList.filterMap (fun x => (fromJson? x : Except String Nat).toOption)
+      | _ => ts
+    let tot (st : Status) : Nat := counted.countP (fun t => classify deps res lock t = st)
+    let short : Json := match shortSummary (tot .failed) (tot .waiting) (tot .ready) (tot .finished) (tot .running) with
+      | .allComplete k => Json.arr #[Json.str "all", toJson (0 : Nat), toJson (0 : Nat), toJson k, toJson (0 : Nat)]
+      | .pending w f c a => Json.arr #[Json.str "pending", toJson f, toJson w, toJson c, toJson (a.getD 0)]
     some <| Json.mkObj [
+      ("short", short),
       ("aff", jList jNat (ts.filter (aff deps hit))),
       ("shell", jOpt (fun l => jList jNat (ts.filter (fun t => l.contains t))) shellAll),
       ("status", jList (fun t => Json.str (stName (classify deps res lock t))) ts),
